@@ -509,10 +509,19 @@ func rulePXTag(c *Ctx) []Obligation {
 					for _, k := range keys {
 						isKey[k] = true
 					}
+					// … or small structs carrying the key in the field the comparator orders by
+					fld := ""
+					if ci, ok := e.In.(ssa.CallInstruction); ok {
+						fld, _ = sortField(c, ci)
+					}
 					for _, el := range e.Args[0].Elems {
-						if !isKey[el.String()] {
-							allKeys = false
+						if isKey[el.String()] {
+							continue
 						}
+						if el.Op == "struct" && fld != "" && el.Fields[fld] != nil && isKey[el.Fields[fld].String()] {
+							continue
+						}
+						allKeys = false
 					}
 				}
 				// a slice made with the map's length and filled slot by slot
@@ -931,7 +940,7 @@ type listSpec struct {
 func (c *Ctx) checkListPaths(o *obs, f *ssa.Function, sp listSpec) {
 	fn := fname(f)
 	reg := c.registerFn()
-	paths, trunc := c.Paths(f, PXConfig{SkipErrEdges: true, Opaque: c.stdOpaque(), MaxVisits: 4, MaxPaths: 60000})
+	paths, trunc := c.Paths(f, PXConfig{SkipErrEdges: true, Opaque: c.stdOpaque(), MaxVisits: 4, MaxIndex: 3, MaxDepth: 3, MaxPaths: 200000})
 	if trunc || len(paths) == 0 {
 		o.undecided(fn, "path enumeration", f.Pos(), "%d paths, truncated %v", len(paths), trunc)
 		return
@@ -1231,6 +1240,9 @@ func boolOutcomes(p *PXPath) (out []struct {
 			}
 			f[r.String()] = false
 		}
+		if feasible && !factsLenConsistent(f) {
+			feasible = false
+		}
 		if feasible {
 			out = append(out, struct {
 				F   Facts
@@ -1307,68 +1319,82 @@ func rulePXIsNull(c *Ctx) []Obligation {
 				t.note("the null test does not panic", false, "path %s panics", traceOf(p))
 				continue
 			}
-			b, isC := p.Ret[0].boolVal()
-			if !isC {
+			outs, okOut := boolOutcomes(p)
+			if !okOut {
 				t.note("the result is decided on every path", false, "path %s returns %s", traceOf(p), p.Ret[0])
 				continue
 			}
-			F := p.Facts
-			if lf.nilR && F.Has("eq(nil,recv)", true) {
-				t.note("a nil statement is null", b, "path %s returns false for a nil receiver", traceOf(p))
-				continue
-			}
-			if lf.delims {
-				// a group with a delimiter is not null, whatever its items; the items decide only
-				// for a delimiter-less group
-				delim := F.Has("empty(recv.open)", false) || F.Has("empty(recv.close)", false)
-				noDelim := F.Has("empty(recv.open)", true) && F.Has("empty(recv.close)", true)
-				if delim {
-					t.note("a group is non-null outright only if it has a delimiter", !b, "path %s returns true for a group with a delimiter (facts %s)", traceOf(p), F)
+			for _, oc := range outs {
+				b := oc.Val
+				F := oc.F
+				if lf.nilR && F.Has("eq(nil,recv)", true) {
+					t.note("a nil statement is null", b, "path %s returns false for a nil receiver", traceOf(p))
 					continue
 				}
-				if !noDelim {
-					t.note("a delimiter-less group is null exactly if all its items are", false, "path %s decides by the items without having found both delimiters empty (facts %s)", traceOf(p), F)
-					continue
+				if lf.delims {
+					// a group with a delimiter is not null, whatever its items; the items decide only
+					// for a delimiter-less group
+					delim := F.Has("empty(recv.open)", false) || F.Has("empty(recv.close)", false)
+					noDelim := F.Has("empty(recv.open)", true) && F.Has("empty(recv.close)", true)
+					if delim {
+						t.note("a group is non-null outright only if it has a delimiter", !b, "path %s returns true for a group with a delimiter (facts %s)", traceOf(p), F)
+						continue
+					}
+					if !noDelim {
+						t.note("a delimiter-less group is null exactly if all its items are", false, "path %s decides by the items without having found both delimiters empty (facts %s)", traceOf(p), F)
+						continue
+					}
+					t.note("a delimiter-less group is null exactly if all its items are", true, "")
 				}
-				t.note("a delimiter-less group is null exactly if all its items are", true, "")
-			}
-			// statuses of the items examined
-			n := 0
-			lastLive, allSkipped := false, true
-			for k := 0; k < 4; k++ {
-				it := fmt.Sprintf("%s[%d]", lf.list, k)
-				seen := false
-				for atom := range F {
-					if strings.Contains(atom, it) {
-						seen = true
+				// statuses of the items examined
+				n := 0
+				lastLive, allSkipped := false, true
+				for k := 0; k < 4; k++ {
+					it := fmt.Sprintf("%s[%d]", lf.list, k)
+					seen := false
+					for atom := range F {
+						if strings.Contains(atom, it) {
+							seen = true
+						}
+					}
+					if !seen {
+						break
+					}
+					n = k + 1
+					nil3 := fact3(F, eqAtom("nil", it))
+					null3 := [2]bool{}
+					for _, e := range p.Events {
+						if e.Kind == "invoke" && e.Name == c.nullName() && e.Recv.String() == it {
+							null3 = fact3(F, e.Res.String())
+						}
+					}
+					live := nil3[1] && !nil3[0] && null3[1] && !null3[0]
+					skipped := (nil3[1] && nil3[0]) || (null3[1] && null3[0])
+					lastLive = live
+					if !skipped {
+						allSkipped = false
 					}
 				}
-				if !seen {
-					break
+				exhausted := F.Has(fmt.Sprintf("lt(%d,len(%s))", n, lf.list), false)
+				if n == 0 {
+					exhausted = F.Has("empty("+lf.list+")", true)
 				}
-				n = k + 1
-				nil3 := fact3(F, eqAtom("nil", it))
-				null3 := [2]bool{}
-				for _, e := range p.Events {
-					if e.Kind == "invoke" && e.Name == c.nullName() && e.Recv.String() == it {
-						null3 = fact3(F, e.Res.String())
+				if !exhausted {
+					// the length may be known from an equation (a count compared with len)
+					if F.Has(fmt.Sprintf("eq(%d,len(%s))", n, lf.list), true) {
+						exhausted = true
+					}
+					if kn, ok := p.Mem["#len:"+lf.list]; ok {
+						if v, isN := kn.intVal(); isN && int(v) == n {
+							exhausted = true
+						}
 					}
 				}
-				live := nil3[1] && !nil3[0] && null3[1] && !null3[0]
-				skipped := (nil3[1] && nil3[0]) || (null3[1] && null3[0])
-				lastLive = live
-				if !skipped {
-					allSkipped = false
+				if b {
+					t.note("null only if every item is nil or null (all items examined)", allSkipped && exhausted, "path %s returns true after %d items (all nil/null: %v, list exhausted: %v; facts %s)", traceOf(p), n, allSkipped, exhausted, F)
+				} else {
+					t.note("non-null only if an item is neither nil nor null", n > 0 && lastLive, "path %s returns false (facts %s)", traceOf(p), F)
 				}
-			}
-			exhausted := F.Has(fmt.Sprintf("lt(%d,len(%s))", n, lf.list), false)
-			if n == 0 {
-				exhausted = F.Has("empty("+lf.list+")", true)
-			}
-			if b {
-				t.note("null only if every item is nil or null (all items examined)", allSkipped && exhausted, "path %s returns true after %d items (all nil/null: %v, list exhausted: %v; facts %s)", traceOf(p), n, allSkipped, exhausted, F)
-			} else {
-				t.note("non-null only if an item is neither nil nor null", n > 0 && lastLive, "path %s returns false (facts %s)", traceOf(p), F)
 			}
 		}
 		t.require("null only if every item is nil or null (all items examined)", "non-null only if an item is neither nil nor null")
@@ -3530,4 +3556,72 @@ func (c *Ctx) inlinedPrevious(F Facts) (x string, kind string, why string) {
 		}
 	}
 	return "", "", "no occurrence of the group within the items examined"
+}
+
+// factsLenConsistent: the literals about len(x) (c < len(x), len(x) < c, x empty, len(x) == c) leave
+// at least one possible length for every x.
+func factsLenConsistent(F Facts) bool {
+	type iv struct {
+		lo, hi int64
+		ne     map[int64]bool
+	}
+	m := map[string]*iv{}
+	get := func(x string) *iv {
+		if m[x] == nil {
+			m[x] = &iv{0, 1 << 40, map[int64]bool{}}
+		}
+		return m[x]
+	}
+	for a, pol := range F {
+		switch {
+		case strings.HasPrefix(a, "empty(") && strings.HasSuffix(a, ")") && !strings.Contains(a[6:len(a)-1], "("):
+			v := get(a[6 : len(a)-1])
+			if pol {
+				if v.hi > 0 {
+					v.hi = 0
+				}
+			} else if v.lo < 1 {
+				v.lo = 1
+			}
+		case (strings.HasPrefix(a, "lt(") || strings.HasPrefix(a, "eq(")) && strings.HasSuffix(a, "))"):
+			body := a[3 : len(a)-1]
+			i := strings.Index(body, ",len(")
+			if i <= 0 {
+				continue
+			}
+			c, err := strconv.ParseInt(body[:i], 10, 64)
+			if err != nil {
+				continue
+			}
+			v := get(body[i+5 : len(body)-1])
+			switch {
+			case a[0] == 'l' && pol:
+				if c+1 > v.lo {
+					v.lo = c + 1
+				}
+			case a[0] == 'l' && !pol:
+				if c < v.hi {
+					v.hi = c
+				}
+			case a[0] == 'e' && pol:
+				if c > v.lo {
+					v.lo = c
+				}
+				if c < v.hi {
+					v.hi = c
+				}
+			default:
+				v.ne[c] = true
+			}
+		}
+	}
+	for _, v := range m {
+		if v.lo > v.hi {
+			return false
+		}
+		if v.lo == v.hi && v.ne[v.lo] {
+			return false
+		}
+	}
+	return true
 }
